@@ -3,6 +3,7 @@
 #include "../sim/interp.h"
 #include "prims.h"
 #include "wireless.h"
+#include "snowv_pon.h"
 #include <memory>
 
 void mat_raw_keys(uint64_t key_seed, uint8_t rawc[64], uint8_t rawa[160]);
@@ -164,9 +165,9 @@ ref_cipher_stage(const JobSpec &s, const uint8_t *rawc, const uint8_t *iv, const
                 if (s.key_len == 16)
                         return ref_zuc_eea3(rawc, iv, in, out, nbytes);
                 return ref_zuc256_eea3(rawc, iv, s.iv_len, in, out, nbytes);
+        case IMB_CIPHER_SNOW_V: return ref_snow_v(rawc, iv, in, out, nbytes);
         case IMB_CIPHER_SNOW3G_UEA2_BITLEN:
-        case IMB_CIPHER_KASUMI_UEA1_BITLEN:
-        case IMB_CIPHER_SNOW_V: return false; // handled by the caller (bit offsets) or not admitted
+        case IMB_CIPHER_KASUMI_UEA1_BITLEN: return false; // handled by the caller (bit offsets)
         }
         return false;
 }
@@ -302,8 +303,36 @@ ref_compute(const JobSpec &s, const MatJob &mj, RefOut &ro)
                 ro.dst.assign(src.begin() + s.c_off, src.begin() + s.c_off + s.c_len);
                 return true;
         }
-        if (aead_hash_for(s.cipher) || s.cipher == IMB_CIPHER_PON_AES_CNTR)
-                return false; // PON, SNOW-V-AEAD, SGL: no admitted reference (differential oracles only)
+        if (s.cipher == IMB_CIPHER_SNOW_V_AEAD) {
+                Bytes out(s.c_len);
+                uint8_t tg[16];
+                if (!ref_snow_v_aead(enc, rawc, iv, aad, s.aad_len, src.data() + s.c_off, out.data(), s.c_len, tg))
+                        return false;
+                ro.tag.assign(tg, tg + 16);
+                ro.tag.resize(s.tag_len);
+                ro.dst = out;
+                if (s.inplace)
+                        memcpy(src.data() + s.c_off, out.data(), out.size());
+                ro.src_post = src;
+                return true;
+        }
+        if (s.cipher == IMB_CIPHER_PON_AES_CNTR) {
+                // whole XGEM frame [h_off, h_off + h_len): header (HEC rewritten on encrypt), payload with CRC, padding
+                Bytes frame(s.h_len);
+                uint8_t tg[8];
+                if (!ref_pon(enc, s.key_len ? rawc : nullptr, iv, src.data() + s.h_off, frame.data(), s.h_len, s.pon_pli, tg))
+                        return false;
+                memcpy(src.data() + s.h_off, frame.data(), s.h_len);
+                ro.tag.assign(tg, tg + 8);
+                if (s.pon_pli <= 4)
+                        memset(ro.tag.data() + 4, 0, 4); // the CRC word is unspecified for PLI <= 4 (masked in the library's output too)
+                ro.src_post = src;
+                if (s.c_len)
+                        ro.dst.assign(src.begin() + s.c_off, src.begin() + s.c_off + s.c_len);
+                return true;
+        }
+        if (aead_hash_for(s.cipher))
+                return false; // SGL forms are compared with their one-shot jobs (C10), not here
 
         // ------------------------------------------------ generic cipher and/or hash, composed in chain order
         const bool have_c = s.cipher != IMB_CIPHER_NULL, have_h = s.hash != IMB_AUTH_NULL;
